@@ -13,6 +13,10 @@ NOT_YET = {
     "C16": ["PFOR, group, Elias, BP128, adaptive, float metadata: monitors + correspondence only so far"],
     "C05": [],
     "C11": [],
+    "C18": ["crash- and leak-freedom (facts about the binary: observed by the sweep, not theorems); the stateless codecs are "
+            "carried only as request-count tables tied by the correspondence (abortAll_spec), their value-level result under "
+            "refusal is 'failure or the undisturbed result' by observation; members-list = bit set (C08 set algebra) is not proved, "
+            "so or_spec / from_members_spec speak about the list the C iterates"],
     "C14": ["termination is by construction (the models are total functions whose loops are bounded by explicit fuel = input size); "
             "that the fuel of runCountAux suffices is tied by the correspondence, not proved"],
     "C06": ["losslessness of the PFOR, DICT and BITMAP arms (their codecs have no round-trip theorem yet) and hence the unconditional adaptive_roundtrip; analysis facts (isSorted/uniqueCount describe the list) linking select_bitmap_domain to the input list"],
